@@ -49,7 +49,7 @@ func (c12) NRuns(tier string) int {
 	if tier == "thorough" {
 		return 400000
 	}
-	return 2500
+	return 8000
 }
 func (c12) Rule() string {
 	return "one connection, channel 0 plus N (quick 1..4, thorough 1..16) client tasks created by a root task; each task: NewChannel, k rounds of SendPackage + consume to the final DONE, Close; the peer acknowledges SETUP, answers every request with packages carrying channel/round-unique markers and interleaves the packets of different channels' responses by the schedule stream; unknown-channel packets are injected; every synchronisation operation is a scheduling choice (sticky / PCT / uniform strategies) and every schedule runs under the race detector; non-trivial = at least two tasks were inside NewChannel/Close concurrently or two channels' response packets interleaved; distinct = distinct schedule-trace hash"
